@@ -219,7 +219,9 @@ func (c *c15Client) awaitEOF(d time.Duration, logTimeout bool) wire.ReadStatus {
 	}
 }
 
-var c15Variants = []string{"orderly", "half-close", "rst"}
+// "every ended ... connection frees its slot": however it ended — also in the middle of a command, of a
+// path, or of an announced upload payload
+var c15Variants = []string{"orderly", "half-close", "rst", "mid-command", "mid-path", "mid-payload"}
 
 func (c *c15Client) depart(variant string, waitEOF bool, wd time.Duration) {
 	if c.closed {
@@ -227,6 +229,15 @@ func (c *c15Client) depart(variant string, waitEOF bool, wd time.Duration) {
 	}
 	c.log.add(c.id, c.src, "close", 0, variant)
 	switch variant {
+	case "mid-command":
+		c.w.SendRaw(wire.P(wire.OpStat, "/").Bytes()[:7])
+		c.w.Close()
+	case "mid-path":
+		c.w.SendRaw(wire.P(wire.OpStat, "/some/longer/path/that/never/arrives").Bytes()[:16+5])
+		c.w.Close()
+	case "mid-payload":
+		c.w.SendRaw(wire.Write(make([]byte, 4096)).Bytes()[:16+100])
+		c.w.Close()
 	case "rst":
 		c.w.Reset()
 	case "half-close":
